@@ -203,8 +203,12 @@ def build_asset(a, ctx):
                  wacc=a.get("wacc", 0.0))
         if t == "structured":
             return StructuredAsset(portfolio=pf, **k)
-        return LinkedAsset(portfolio=pf, asset1_variable=tuple(a["asset1_variable"]),
-                           asset2_variable=tuple(a["asset2_variable"]),
+        by_name = {x.name: x for x in inner}
+
+        def var(v):     # (asset object, variable, node) as in the documented usage
+            return (by_name.get(v[0], v[0]), v[1], v[2])
+        return LinkedAsset(portfolio=pf, asset1_variable=var(a["asset1_variable"]),
+                           asset2_variable=var(a["asset2_variable"]),
                            asset2_time_already_running=a.get("asset2_time_already_running", "time_already_running"),
                            time_back=a.get("time_back", 1), time_forward=a.get("time_forward", 0), **k)
     raise ValueError("unknown asset type " + str(t))
